@@ -115,6 +115,8 @@ OPTIONAL_ATTRS = {"terms.Interval": {"years", "months", "days", "hours", "minute
 # Class invariant facts (python expressions over `self`, evaluated by the verifier's own engine and assumed for the
 # pre-state; established by the builders that set the attributes involved).
 FACTS = {
+    "queries.QueryBuilder": ["bool(self._insert_table) or not self._on_conflict",
+                             "not self._select_into or (len(self._selects) > 0 and bool(self._insert_table))"],
     "terms.AnalyticFunction": ["self._include_over or (len(self._partition) == 0 and len(self._orderbys) == 0)"],
     "terms.AggregateFunction": ["self._include_filter or len(self._filters) == 0"],
 }
